@@ -1,0 +1,57 @@
+//go:build verif
+// +build verif
+
+package vbft
+
+// Exported names for the unexported VBFT message types and thin wrappers around the existing
+// message builders, used only by the /verif runtime monitors (build tag "verif"). Nothing here
+// adds behaviour: every function only calls existing code of this package.
+
+import (
+	"github.com/polynetwork/poly/account"
+	"github.com/polynetwork/poly/common"
+)
+
+type (
+	VerifMsgProposal      = blockProposalMsg
+	VerifMsgEndorse       = blockEndorseMsg
+	VerifMsgCommit        = blockCommitMsg
+	VerifMsgHandshake     = peerHandshakeMsg
+	VerifMsgHeartbeat     = peerHeartbeatMsg
+	VerifMsgBlockFetch    = blockFetchMsg
+	VerifMsgProposalFetch = proposalFetchMsg
+)
+
+// VerifMsgSigner returns a Server carrying only what the construct*Msg builders read: the signing
+// account and the peer index.
+func VerifMsgSigner(acct *account.Account, index uint32) *Server {
+	return &Server{account: acct, Index: index}
+}
+
+func VerifMsgConstructEndorse(s *Server, proposal *VerifMsgProposal, forEmpty bool) (*VerifMsgEndorse, error) {
+	return s.constructEndorseMsg(proposal, forEmpty)
+}
+
+func VerifMsgConstructCommit(s *Server, proposal *VerifMsgProposal, endorses []*VerifMsgEndorse, forEmpty bool) (*VerifMsgCommit, error) {
+	return s.constructCommitMsg(proposal, endorses, forEmpty)
+}
+
+func VerifMsgConstructBlockFetch(s *Server, blkNum uint32) (*VerifMsgBlockFetch, error) {
+	return s.constructBlockFetchMsg(blkNum)
+}
+
+func VerifMsgConstructBlockFetchResp(s *Server, blkNum uint32, blk *Block, blkHash common.Uint256) (*BlockFetchRespMsg, error) {
+	return s.constructBlockFetchRespMsg(blkNum, blk, blkHash)
+}
+
+func VerifMsgConstructBlockInfoFetch(s *Server, startBlkNum uint32) (*BlockInfoFetchMsg, error) {
+	return s.constructBlockInfoFetchMsg(startBlkNum)
+}
+
+func VerifMsgConstructBlockInfoFetchResp(s *Server, infos []*BlockInfo_) (*BlockInfoFetchRespMsg, error) {
+	return s.constructBlockInfoFetchRespMsg(infos)
+}
+
+func VerifMsgConstructProposalFetch(s *Server, blkNum uint32, proposer uint32) (*VerifMsgProposalFetch, error) {
+	return s.constructProposalFetchMsg(blkNum, proposer)
+}
